@@ -28,6 +28,7 @@ import (
 //	swap-stmt     exchange two adjacent statements that both have an effect (call, =, ++, send, defer, go)
 //	undefer       defer f(x) → f(x);  defer-it: f(x) → defer f(x)
 //	arg-swap      exchange two adjacent call arguments of identical type
+//	add-conjunct  if c → if (c) && !recv.flag   (flag: a boolean field of the receiver that c does not mention)
 //	const-sibling a package-level constant → the next constant of the same type whose name shares a long prefix
 type mutSite struct {
 	ID    int    `json:"id"`
@@ -230,6 +231,10 @@ func mutSites(p *Prog, touched map[*Func]bool, repo string) []mutSite {
 				}
 			case *ast.IfStmt:
 				add(f, "neg-cond", x.Cond.Pos(), x.Cond.End(), "!("+text(x.Cond)+")")
+				// narrow the gate by one plausible conjunct: a boolean field of the receiver the condition does not mention
+				if extra := extraBool(f, x.Cond); extra != "" {
+					add(f, "add-conjunct", x.Cond.Pos(), x.Cond.End(), "("+text(x.Cond)+") && !"+extra)
+				}
 				var walk func(e ast.Expr)
 				walk = func(e ast.Expr) {
 					e2 := ast.Unparen(e)
@@ -293,4 +298,34 @@ func constSibling(cst *types.Const) string {
 		}
 	}
 	return ""
+}
+
+// extraBool returns "recv.field" for the first (by name) boolean field of f's receiver struct that cond does not
+// mention; "" if there is no receiver or no such field.
+func extraBool(f *Func, cond ast.Expr) string {
+	root := f.Root()
+	rv := root.Recv()
+	if rv == nil || rv.Name() == "" || rv.Name() == "_" {
+		return ""
+	}
+	n := namedOf(rv.Type())
+	if n == nil {
+		return ""
+	}
+	st, ok := n.Underlying().(*types.Struct)
+	if !ok {
+		return ""
+	}
+	var names []string
+	for i := 0; i < st.NumFields(); i++ {
+		fl := st.Field(i)
+		if b, isB := fl.Type().Underlying().(*types.Basic); isB && b.Kind() == types.Bool && !f.Mentions(cond, fl) {
+			names = append(names, fl.Name())
+		}
+	}
+	sort.Strings(names)
+	if len(names) == 0 {
+		return ""
+	}
+	return rv.Name() + "." + names[0]
 }
